@@ -3,6 +3,7 @@ package main
 import (
 	"fmt"
 	"go/token"
+	"go/types"
 	"strings"
 
 	"golang.org/x/tools/go/ssa"
@@ -12,7 +13,7 @@ func init() {
 	register(&propertyDef{
 		id:    "C19",
 		title: "invalid input starts nothing; steps see the schema-normalised input",
-		rules: []ruleFunc{c19R1, c19R2, c19R3, c19R4, c19R5, c19R6},
+		rules: []ruleFunc{c19R1, c19R2, c19R3, c19R4, c19R5, c19R6, c19R7},
 		decided: "in Execute every step start, every go statement and the construction of the run state are dominated by the success edges of input.Unserialize and input.Serialize (R1); the value stored under the data model's `input` key is Serialize(Unserialize(caller's input)) and nothing else writes that key (R2); " +
 			"the engine entry point passes the decoded document unchanged to Execute and returns before it on a decode error (R3). Shared: the loop step does not write into the item list it received from the data model (R4 = C13.R4).",
 		notDecided: "what normalisation does (pluginsdk); what each step observes (needs runs).",
@@ -302,4 +303,73 @@ func c19R5(c *Ctx) {
 		}
 	}
 	c.minCount(rule, "conversion loops of Node.Raw", n, 2)
+}
+
+// C19.R7 the run path does not edit what the prepared schemas hand out.
+func c19R7(c *Ctx) {
+	const rule = "C19.R7"
+	c.explain("C19.R7 in the run path of the workflow package no map or list that a method of a prepared object returned (the input scope's GetDefaults(), Properties(), Objects(); a step schema's Outputs() …) is written to, deleted from or cleared: the SDK's accessors return their live tables, the prepared workflow is shared by all runs and all loop items, and the input check of the next run would fill in (or miss) defaults according to what an earlier run left there")
+	ew := c.namedType(pkgWorkflow, "executableWorkflow")
+	n := 0
+	cnt := map[string]int{}
+	fromPreparedGetter := func(v ssa.Value) bool {
+		call, ok := v.(*ssa.Call)
+		if !ok {
+			return false
+		}
+		recv := callRecv(call.Common())
+		if recv == nil {
+			return false
+		}
+		switch call.Type().Underlying().(type) {
+		case *types.Map, *types.Slice:
+		default:
+			return false
+		}
+		// the receiver is (a projection of) a field of the prepared workflow
+		return derivesFrom(recv, func(w ssa.Value) bool {
+			f := loadedField(w)
+			if f == nil || ew == nil {
+				return false
+			}
+			st := structOf(ew)
+			if st == nil {
+				return false
+			}
+			for i := 0; i < st.NumFields(); i++ {
+				if st.Field(i) == f {
+					return true
+				}
+			}
+			return false
+		})
+	}
+	for _, fn := range c.inPkgs(c.runFns(), pkgWorkflow) {
+		eachInstr(fn, func(r instrRef) {
+			var container ssa.Value
+			switch x := r.I.(type) {
+			case *ssa.MapUpdate:
+				container = x.Map
+			case *ssa.Store:
+				if ia, ok := x.Addr.(*ssa.IndexAddr); ok {
+					container = ia.X
+				}
+			case *ssa.Call:
+				if (isBuiltinCall(x, "delete") || isBuiltinCall(x, "clear")) && len(x.Call.Args) > 0 {
+					container = x.Call.Args[0]
+				}
+			}
+			if container == nil {
+				return
+			}
+			n++
+			if !fromPreparedGetter(container) {
+				return
+			}
+			cnt[c.fnName(fn)]++
+			c.bad(rule, fmt.Sprintf("getter-write@%s#%d", c.fnName(fn), cnt[c.fnName(fn)]), c.instrPos(r.I), "the run path edits a table that an accessor of a prepared object returned: the change stays in the prepared workflow and the next run (or the next loop item) is checked against it")
+		})
+	}
+	c.Stats["c19_container_writes_scanned"] = n
+	c.ok(rule, "scanned", "-", fmt.Sprintf("%d container writes in the run path of the workflow package, none into an accessor result of a prepared object", n), false)
 }
